@@ -4,6 +4,7 @@ import (
 	"bytes"
 	"fmt"
 	"github.com/256dpi/lungo"
+	"go.mongodb.org/mongo-driver/mongo"
 	"go.mongodb.org/mongo-driver/mongo/options"
 	"math"
 	"sort"
@@ -385,7 +386,7 @@ func init() {
 		}
 		// through the collection: the stored document after UpdateOne is the document Apply produces, ModifiedCount is 1
 		// exactly when its bytes changed (a change of the numeric type alone is a change), and exactly then one update event is logged
-		var collChecks, typeOnly int64
+		var collChecks, typeOnly, collSecond int64
 		par.For(len(docs), r.TooMany, func(di int) {
 			doc := append(bson.D{{Key: "_id", Value: int32(1)}}, docs[di]...)
 			for _, u := range cases {
@@ -439,9 +440,48 @@ func init() {
 				if !hasDate && (res.ModifiedCount != wantMod || int64(evAfter-evBefore) != wantMod || res.MatchedCount != 1) {
 					r.Violation("collection:modified-count:"+cls, fmt.Sprintf("UpdateOne(%s) on %s: matched=%d modified=%d events=%d, the document %s", J(upd), J(doc), res.MatchedCount, res.ModifiedCount, evAfter-evBefore, map[bool]string{true: "changed to " + J(want), false: "did not change"}[changed]), rep)
 				}
+				// the same update once more, this time with the upsert option and through the other entry points: the filter
+				// still matches, so nothing may be inserted; counts and events follow from whether the second application
+				// changes the document
+				if !hasDate && bytes.Equal(rawBytes(stored), rawBytes(want)) {
+					want2, _, err2, pan2 := c11Lungo(want, upd, u.filters, false)
+					if err2 == nil && pan2 == nil {
+						opt2 := options.Update().SetUpsert(true)
+						if opt.ArrayFilters != nil {
+							opt2.SetArrayFilters(*opt.ArrayFilters)
+						}
+						var res2 *mongo.UpdateResult
+						var uerr2 error
+						kind := ""
+						switch atomic.AddInt64(&collSecond, 1) % 3 {
+						case 0:
+							kind = "UpdateOne"
+							res2, uerr2 = coll.UpdateOne(w.Ctx, bD("_id", int32(1)), upd, opt2)
+						case 1:
+							kind = "UpdateMany"
+							res2, uerr2 = coll.UpdateMany(w.Ctx, bD("_id", bD("$gte", int32(1))), upd, opt2)
+						default:
+							kind = "UpdateByID"
+							res2, uerr2 = coll.UpdateByID(w.Ctx, int32(1), upd, opt2)
+						}
+						changed2 := !bytes.Equal(rawBytes(want2), rawBytes(want))
+						wantMod2 := int64(0)
+						if changed2 {
+							wantMod2 = 1
+						}
+						n, _ := coll.CountDocuments(w.Ctx, bD())
+						evAfter2 := len(w.Engine.Catalog().Namespaces[lungo.Oplog].Documents.List)
+						if uerr2 != nil {
+							r.Violation("collection:second-update-fails:"+cls, fmt.Sprintf("%s(%s, upsert) applied a second time to %s failed: %v", kind, J(upd), J(want), uerr2), rep)
+						} else if res2.MatchedCount != 1 || res2.UpsertedCount != 0 || res2.ModifiedCount != wantMod2 || n != 1 || int64(evAfter2-evAfter) != wantMod2 {
+							r.Violation("collection:second-update:"+cls, fmt.Sprintf("%s(%s, upsert) applied a second time to the matching document %s: matched=%d modified=%d upserted=%d events=%d documents=%d; expected matched=1 modified=%d upserted=0 and one document", kind, J(upd), J(want), res2.MatchedCount, res2.ModifiedCount, res2.UpsertedCount, evAfter2-evAfter, n, wantMod2), rep)
+						}
+					}
+				}
 				w.Close()
 			}
 		})
+		r.Set("collection_level_second_applications", collSecond)
 		r.Set("collection_level_updates", collChecks)
 		r.Set("collection_level_type_only_changes", typeOnly)
 		r.Sample(bson.M{"doc": J(docs[17]), "update": J(cases[900].update())})
